@@ -254,6 +254,25 @@ func c05Run(w *W) {
 			if q != nil {
 				q.pipeOpenAtSend = q.pipe.Open()
 			}
+			// a server with a dedicated receiving goroutine: a Recv is already
+			// waiting on the context (nothing to receive: it ends at its
+			// deadline) when the reply to the last received request is sent
+			var recvBeside *Call
+			if kind == "rep" && q != nil && !c.maybeNone && w.Choose(simrt.SProg, 4) == 0 {
+				untaken := 0
+				for _, x := range reqs {
+					if !x.taken {
+						untaken++
+					}
+				}
+				if untaken == 0 {
+					recvBeside = w.Do(fmt.Sprintf("ctx%d.RecvMsg(beside the reply)", c.idx), func() (interface{}, error) { return recvMsg(c) })
+					for k := w.Choose(simrt.SProg, 6); k > 0; k-- {
+						simrt.Yield()
+					}
+					w.Probe("reply-sent-while-a-recv-waits")
+				}
+			}
 			call := w.Do(fmt.Sprintf("ctx%d.SendMsg", c.idx), func() (interface{}, error) { return nil, sendMsg(c, m) })
 			// now and then two goroutines answer the same request at once: in
 			// any order of the two, the second one has no request pending
@@ -265,6 +284,18 @@ func c05Run(w *W) {
 				call2 = w.Do(fmt.Sprintf("ctx%d.SendMsg(second goroutine)", c.idx), func() (interface{}, error) { return nil, sendMsg(c, m2) })
 			}
 			w.Settle()
+			if recvBeside != nil {
+				// (the Recv beside the reply ends at its deadline, before anything else happens)
+				recvBeside.Wait(50 * time.Millisecond)
+				w.Settle()
+				if !recvBeside.Returned() {
+					w.Failf("C18/late", "%s RecvMsg with 10ms deadline still pending", kind)
+					return
+				}
+				if recvBeside.Err == nil {
+					recvBeside.Val.(*mangos.Message).Free()
+				}
+			}
 			if !call.Returned() || (call2 != nil && !call2.Returned()) {
 				call.Wait(50 * time.Millisecond)
 				if call2 != nil {
@@ -305,6 +336,10 @@ func c05Run(w *W) {
 				c.pending = nil
 				m.Free()
 				continue
+			}
+			if call.Err == mangos.ErrProtoState && call2 == nil {
+				w.Failf("C05/reply-refused", "%s ctx%d: request %s was received and not answered yet; Send returned the protocol-state error%s", kind, c.idx, q.tag, map[bool]string{true: " (a Recv on the same context was in progress)", false: ""}[recvBeside != nil])
+				return
 			}
 			if call.Err != nil {
 				// a send may fail only with closed/timeouts; the message stays ours
